@@ -404,3 +404,41 @@ def run_mixed_dtype_operands(res: Results, idx: Index, plugins) -> None:
                 else:
                     res.ok("R-C01g", site, key, "dtype preference does not come from the other operand alone", fi.qualname)
     res.analysed["jnp_binary_dtype_preferences"] = n
+
+
+# ---------------------------------------------------------------------------------------------- R-C01h
+def run_promotion_overrides(res: Results, idx: Index) -> None:
+    """A dtype obtained as the promotion of two operand dtypes (`np.promote_types(a, b)` / `result_type`) is the
+    type both operands are cast to before they are combined.  Re-assigning that name on some path from the dtype of
+    ONE of the operands makes the other operand be cast down to it (float queries truncated to an integer table …)."""
+    res.rule("R-C01h", "a promoted operand dtype is not overridden by one operand's own dtype", floor=10)
+    n = 0
+    for m in idx.product_modules():
+        if "/plugins/" not in m.rel or ".examples" in m.name:
+            continue
+        for fi in m.funcs.values():
+            du = defuse(fi.node)
+            for name, defs in du.defs.items():
+                pro = [d for d in defs if d.value is not None and isinstance(d.value, ast.Call) and (call_name(d.value) or "").split(".")[-1] in ("promote_types", "result_type") and len(d.value.args) >= 2]
+                if not pro:
+                    continue
+                n += 1
+                a0 = names_in(pro[0].value.args[0])
+                a1 = names_in(pro[0].value.args[1])
+                key = f"{m.rel}::{fi.qualname}::{name}"
+                site = f"{m.rel}:{pro[0].stmt.lineno}"
+                bad = None
+                for o in defs:
+                    if o in pro or o.value is None or o.kind not in ("assign", "walrus"):
+                        continue
+                    cl = du.closure(names_in(o.value)) | names_in(o.value)
+                    cl.discard(name)
+                    h0, h1 = bool(a0 & cl), bool(a1 & cl)
+                    if h0 != h1 and a0 and a1 and not (a0 & a1):
+                        bad = o
+                        break
+                if bad is not None:
+                    res.violation("R-C01h", f"{m.rel}:{bad.stmt.lineno}", key, f"`{name}` is the promotion `{src(pro[0].value, 50)}` of both operand dtypes, but on another path it becomes `{src(bad.value, 50)}`, which depends on one operand only: the other operand is then cast to a type that cannot hold its values", fi.qualname)
+                else:
+                    res.ok("R-C01h", site, key, f"`{src(pro[0].value, 50)}` is not replaced by a single operand's dtype", fi.qualname)
+    res.analysed["dtype_promotions"] = n
